@@ -1,6 +1,6 @@
 (* C17 Response attributes truthfully report what was settled. *)
 From ATS Require Import Prelude Dec DecFacts Uuid Semver Types Contract Tactics Spec Inv InvAsk InstProofs AskProofs
-  BidFacts InvBid InvStep ExitProofs Ledger AdmitProofs.
+  BidFacts InvBid InvStep ExitProofs Ledger AdmitProofs Frame Reach Shadow.
 
 (* every successful execute response starts with the action attribute naming the kind of request *)
 Theorem C17_action : forall e st sender funds m st' r,
@@ -11,7 +11,7 @@ Print Assumptions C17_action.
 (* expire / reject of an ask: id = the order acted on, reverse_size = the size actually returned to the owner (and
    to the approver), order_open = "true" exactly when the ask is still on the book, whose size fell by reverse_size *)
 Theorem C17_reverse_ask : forall e st sender funds id action csz st' r,
-  keys_ok_asks st -> reverse_ask FX e st sender funds id action csz = Ok (st', r) ->
+  asks_under_own_id st -> reverse_ask FX e st sender funds id action csz = Ok (st', r) ->
   exists a eff,
     lookup id (st_asks st) = Some a /\ eff <= a_size a /\
     r_attrs r = [("action", action); ("id", id); ("reverse_size", show_N eff);
@@ -88,5 +88,22 @@ Proof.
 Qed.
 Print Assumptions C17_approve.
 
-(* The attribute-driven shadow book (replaying attributes alone reproduces the book) is checked on the
-   implementation by the correspondence run (C17 oracle) and not proved as a refinement here: DESIGN.md "partial". *)
+(* The consumer-level guarantee.  `shadow_step` is a function of the attribute list ONLY (it reads action, id /
+   ask_id / bid_id, size, class, reverse_size, order_open); `abs` keeps, per side, id |-> remaining size (and the
+   approval state of an ask).  One step: for every accepted request of every kind, the shadow advanced with the
+   response's attributes equals the abstraction of the new book.  Histories: replaying the attributes of the accepted
+   steps from the empty record reproduces the on-chain book after every history, whatever was refused in between. *)
+Theorem C17_shadow_step : forall e st sender funds m st' r,
+  keys_ok st -> execute FX e st sender funds m = Ok (st', r) -> shadow_step (r_attrs r) (abs st) = abs st'.
+Proof. exact shadow_refines. Qed.
+Print Assumptions C17_shadow_step.
+
+Theorem C17_shadow_never_diverges : forall e m st0 r0 evs,
+  instantiate e empty_state m = Ok (st0, r0) ->
+  shadow_run st0 evs (mksh [] []) = abs (run st0 evs).
+Proof.
+  intros e m st0 r0 evs H. pose proof (keys_ok_init e m st0 r0 H) as HK.
+  rewrite <- (shadow_never_diverges evs st0 HK). f_equal.
+  apply InstProofs.instantiate_stored in H as [-> _]. reflexivity.
+Qed.
+Print Assumptions C17_shadow_never_diverges.
